@@ -109,7 +109,11 @@ fn main() -> Result<ExitCode> {
             let metadata = Metadata::load(metadata_path)?;
 
             let dot_build = metadata.project_dot_build_path();
+            #[cfg(veryl_verif)]
+            veryl_path::verif_gate::point("build-lock-wait");
             let dot_build_lock = veryl_path::lock_dir(&dot_build)?;
+            #[cfg(veryl_verif)]
+            veryl_path::verif_gate::point("build-locked");
             (metadata, Some(dot_build_lock))
         }
     };
@@ -160,6 +164,8 @@ fn main() -> Result<ExitCode> {
         Commands::External(_) => unreachable!(),
     };
 
+    #[cfg(veryl_verif)]
+    veryl_path::verif_gate::point("build-done");
     if let Some(dot_build_lock) = dot_build_lock {
         veryl_path::unlock_dir(dot_build_lock)?;
     }
